@@ -51,7 +51,9 @@ pub fn run(ctx: &mut Ctx) {
         let rarg = st.canonical_reason().map_or("none".to_string(), |r| hex(r.as_bytes()));
         let nh = rng.usize_below(6);
         let mut names: Vec<String> = vec![];
-        while names.len() < nh { let l = 1 + rng.usize_below(10); let n: String = (0..l).map(|_| (b'a' + rng.below(26) as u8) as char).collect(); if !names.contains(&n) && n != "status" { names.push(n); } }
+        while names.len() < nh { let l = 1 + rng.usize_below(10); let n: String = (0..l).map(|_| (b'a' + rng.below(26) as u8) as char).collect(); if !names.contains(&n) && n != "status" { names.push(n); }
+            // a header name may carry several values (Set-Cookie …): every value is its own line
+            if !names.is_empty() && names.len() < nh && rng.chance(1, 3) { let d = rng.pick(&names).clone(); names.push(d); } }
         let hdrs: Vec<(Vec<u8>, Vec<u8>)> = names.iter().map(|n| (n.clone().into_bytes(), { let l = rng.usize_below(16); (0..l).map(|_| rng.range(0x20, 0x7e) as u8).collect() })).collect();
         // read the map's iteration order back and hand it to the model
         let mut rb = http::Response::builder().status(st);
